@@ -231,6 +231,8 @@ def run(ck):
     ck.rule("AMT", "every copy out of the local buffer is followed on all accepting paths by `pos += <the copied count>`, every copy out of the "
                    "reader's buffer by `consume(<the copied count>)` (the same value, not merely a value of the same kind)")
     amount_rule(ck, prog, ra_methods)
+    stale_rule(ck, prog, ra_methods)
+    more_rule(ck, prog)
     controls(ck, prog)
 
 
@@ -422,6 +424,43 @@ def _must_edges(f, target_block):
     return res
 
 
+def _local_cannot_serve(f, g, cb):
+    """(ok, decisions seen): every path to block cb takes an edge that establishes `buffered < requested` or `the local buffer is empty`"""
+    ok, seen_conds = False, []
+    for (b, tb, v) in _must_edges(f, cb):
+        t = f.term(b)
+        c = trace_cond(f, t["d"])
+        listed = [x for x, _ in t["targets"]]
+        if t.get("dty") == "bool" and c.kind == "cmp":
+            truth = (v != "0") if v != "else" else ("0" in listed)
+            cc = c if truth else c.negated()
+            for op, l, r in ((cc.op, cc.lhs, cc.rhs), (FLIPS[cc.op], cc.rhs, cc.lhs)):
+                lw = g.walk(ops=[l], at=c.node, through=lambda tt: not (callee_name(tt) or "").endswith(LOCAL_VIEWS))
+                rw = g.walk(ops=[r], at=c.node, through=lambda tt: not (callee_name(tt) or "").endswith(LOCAL_VIEWS))
+                l_local = _is_local_view(g, lw)
+                r_local = _is_local_view(g, rw)
+                if l_local and not r_local:
+                    seen_conds.append(f"buffered {op} requested")
+                    if op == "<":
+                        ok = True
+        else:
+            # emptiness of the local view: `match buffer().len() { 0 => .. }`, `non_empty_buffer()` is None, `buffer().first()` is None
+            dl = op_local(t["d"], pure=True)
+            w = g.walk(ops=[t["d"]], at=(b, T), through=lambda tt: not (callee_name(tt) or "").endswith(LOCAL_VIEWS))
+            if _is_local_view(g, w):
+                is_zero_edge = v == "0" or (v == "else" and listed == ["1"] and t.get("dty") == "isize")
+                if c.kind == "discr" and is_zero_edge:
+                    ok = True   # Option discriminant 0 = None
+                    seen_conds.append("local view is None")
+                elif c.kind == "call" and (callee_name(c.call) or "").endswith("::len") and v == "0" and t.get("dty") != "bool":
+                    ok = True
+                    seen_conds.append("buffered == 0")
+                elif c.kind == "call" and (callee_name(c.call) or "").endswith("is_empty") and ((v != "0" and v != "else") or (v == "else" and "0" in listed)) != c.neg:
+                    ok = True
+                    seen_conds.append("local view is empty")
+    return ok, seen_conds
+
+
 def refill_rule(ck, prog, ra_methods):
     n = 0
     ordinal = {}
@@ -433,38 +472,7 @@ def refill_rule(ck, prog, ra_methods):
                 continue
             n += 1
             ordinal[f.nname] = ordinal.get(f.nname, 0) + 1
-            ok, seen_conds = False, []
-            for (b, tb, v) in _must_edges(f, cb):
-                t = f.term(b)
-                c = trace_cond(f, t["d"])
-                listed = [x for x, _ in t["targets"]]
-                if t.get("dty") == "bool" and c.kind == "cmp":
-                    truth = (v != "0") if v != "else" else ("0" in listed)
-                    cc = c if truth else c.negated()
-                    for op, l, r in ((cc.op, cc.lhs, cc.rhs), (FLIPS[cc.op], cc.rhs, cc.lhs)):
-                        lw = g.walk(ops=[l], at=c.node, through=lambda tt: not (callee_name(tt) or "").endswith(LOCAL_VIEWS))
-                        rw = g.walk(ops=[r], at=c.node, through=lambda tt: not (callee_name(tt) or "").endswith(LOCAL_VIEWS))
-                        l_local = _is_local_view(g, lw)
-                        r_local = _is_local_view(g, rw)
-                        if l_local and not r_local:
-                            seen_conds.append(f"buffered {op} requested")
-                            if op == "<":
-                                ok = True
-                else:
-                    # emptiness of the local view: `match buffer().len() { 0 => .. }`, `non_empty_buffer()` is None, `buffer().first()` is None
-                    dl = op_local(t["d"], pure=True)
-                    w = g.walk(ops=[t["d"]], at=(b, T), through=lambda tt: not (callee_name(tt) or "").endswith(LOCAL_VIEWS))
-                    if _is_local_view(g, w):
-                        is_zero_edge = v == "0" or (v == "else" and listed == ["1"] and t.get("dty") == "isize")
-                        if c.kind == "discr" and is_zero_edge:
-                            ok = True   # Option discriminant 0 = None
-                            seen_conds.append("local view is None")
-                        elif c.kind == "call" and (callee_name(c.call) or "").endswith("::len") and v == "0" and t.get("dty") != "bool":
-                            ok = True
-                            seen_conds.append("buffered == 0")
-                        elif c.kind == "call" and (callee_name(c.call) or "").endswith("is_empty") and ((v != "0" and v != "else") or (v == "else" and "0" in listed)) != c.neg:
-                            ok = True
-                            seen_conds.append("local view is empty")
+            ok, seen_conds = _local_cannot_serve(f, g, cb)
             ck.ob("REFILL", f"{f.nname.split('::')[-1]}:{cn.split('::')[-1]}#{ordinal[f.nname]}", ok,
                   f"{f.nname.split('::')[-1]} consults the underlying reader ({cn.split('::')[-1]}) only on paths where it established that the local "
                   f"buffer cannot serve the request (found: {seen_conds or 'no such decision'})", loc=f.loc(cb, T))
@@ -636,3 +644,112 @@ def controls(ck, prog):
     pk = prog.impl_method(SR, BR, "peek_u8")
     adv = Advances(prog, SR, "pos", ())
     ck.control("SliceReader::peek_u8 is recognised as non-advancing", not adv.must_advance(pk))
+
+
+def _locals_of(x, out):
+    if isinstance(x, dict):
+        for k, v in x.items():
+            if k in ("l", "idx") and isinstance(v, int) and not isinstance(v, bool):
+                out.add(v)
+            else:
+                _locals_of(v, out)
+    elif isinstance(x, list):
+        for v in x:
+            _locals_of(v, out)
+
+
+def stale_rule(ck, prog, ra_methods):
+    """An offset into the spill buffer must be the position as it is AFTER the last repositioning. For every copy of `self.pos` into a local,
+    no path leads from the copy through a repositioning store to `self.pos` (a store whose value does not derive from the previous position:
+    `pos = 0` after moving the unread bytes to the front) to a use of that copy (or of a value computed from it). `pos += n` is an advance, not
+    a repositioning, so `let start = self.pos; self.pos += len; &buf[start..]` is fine; taking `start` before the compaction is not."""
+    ck.rule("STALE", "a copy of the position taken before the buffer is compacted (position reset) is not used afterwards")
+    n = 0
+    for f in ra_methods:
+        g = flow(f)
+        stores = field_stores(f, RA, "pos")
+        repos = [(b, i) for b, i, st in stores if not reads_field(f, b, i, st, RA, "pos")]
+        if not repos:
+            continue
+        for b, i, st in f.assigns():
+            rv = st["rv"]
+            if rv["k"] != "use" or "p" in st["lhs"]:
+                continue
+            p = op_place(rv["a"])
+            if p is None or not any(isinstance(e, dict) and e.get("of") == RA and e.get("n") == "pos" for e in p.get("p", [])):
+                continue
+            l = st["lhs"]["l"]
+            n += 1
+            # values computed from the copy
+            derived = {l}
+            changed = True
+            while changed:
+                changed = False
+                for bb, ii, s2 in f.assigns():
+                    if "p" in s2["lhs"] or s2["lhs"]["l"] in derived:
+                        continue
+                    used = set()
+                    _locals_of(s2["rv"], used)
+                    if used & derived:
+                        derived.add(s2["lhs"]["l"])
+                        changed = True
+            bad = None
+
+            def later(b1, i1, b2, i2):
+                """is (b2, i2) reachable from (b1, i1)?  (i = statement index or T)"""
+                o1 = len(f.blocks[b1]["s"]) if i1 == T else i1
+                o2 = len(f.blocks[b2]["s"]) if i2 == T else i2
+                if b1 == b2 and o2 > o1:
+                    return True
+                return (b2, S) in reach(f, [(b1, T)], include_starts=False)
+            for rb, ri in repos:
+                if not later(b, i, rb, ri):
+                    continue
+                for ub, blk in enumerate(f.blocks):
+                    sites = [(ii, s2) for ii, s2 in enumerate(blk["s"]) if s2["k"] == "assign"] + [(T, blk["t"])]
+                    for ui, node in sites:
+                        if not later(rb, ri, ub, ui) or (ub, ui) == (b, i):
+                            continue
+                        used = set()
+                        _locals_of(node.get("rv") if ui != T else {k: v for k, v in node.items() if k in ("args", "d", "cond")}, used)
+                        if not (used & derived):
+                            continue
+                        # the copy made at (b, i) must still be the value of l here
+                        defs = g.reaching(l, ub, g._pos(ub, ui))
+                        if any(d.b == b and d.i == i for d in defs):
+                            bad = bad or f.loc(ub, ui)
+            ck.ob("STALE", f"{f.nname.split('::')[-1]}:pos-copy@{f.line(b, i) - (f.get('line') or 0)}" if False else f"{f.nname.split('::')[-1]}:pos-copy#{n}", bad is None,
+                  f"{f.nname.split('::')[-1]}: the copy of the position taken here is not used after a repositioning of the buffer", loc=f.loc(b, i),
+                  detail=None if bad is None else {"used after the position was reset, at": bad})
+    ck.floor("copies of the position in methods that reposition", n, 1)
+
+
+def more_rule(ck, prog):
+    """has_more_bytes may answer `false` only where the adapter's own unread bytes were observed to be none: every assignment of a value other
+    than the constant `true` to the result lies behind an edge that establishes `the local buffer is empty` (after a failed read the remaining
+    bytes sit in the local buffer while the underlying reader is already exhausted)."""
+    ck.rule("MORE", "ReadAdapter::has_more_bytes answers false only after it observed its own buffer empty")
+    f = prog.impl_method(RA, BR, "has_more_bytes")
+    ck.saw(f)
+    g = flow(f)
+    n = 0
+    for b, i, st in f.assigns():
+        if "p" in st["lhs"] or st["lhs"]["l"] != 0:
+            continue
+        rv = st["rv"]
+        c = rv["a"].get("const") if rv["k"] == "use" else None
+        if c is not None and c.get("scalar") == "1":
+            continue
+        n += 1
+        ok, seen = _local_cannot_serve(f, g, b)
+        ck.ob("MORE", f"has_more_bytes:not-true#{n}", ok,
+              "has_more_bytes: a result that can be `false` is produced only on paths that established that the local buffer holds no unread byte "
+              f"(found: {seen or 'no such decision'})", loc=f.loc(b, i))
+    for b, t in f.calls():
+        if t["dest"].get("l") == 0 and "p" not in t["dest"]:
+            n += 1
+            ok, seen = _local_cannot_serve(f, g, b)
+            ck.ob("MORE", f"has_more_bytes:not-true#{n}", ok,
+                  "has_more_bytes: a result that can be `false` is produced only on paths that established that the local buffer holds no unread byte "
+                  f"(found: {seen or 'no such decision'})", loc=f.loc(b, T))
+    ck.floor("results of has_more_bytes that can be false", n, 1)
